@@ -672,8 +672,30 @@ class CatalogReplayer:
                             rt = RTOL[dtype]
                             scale = max(1.0, float(np.max(np.abs(first[k]))) if first[k].size else 1.0)
                             if g2.data.shape != first[k].shape or not np.allclose(g2.data.astype(np.float64), 2 * first[k], rtol=4 * rt, atol=4 * rt * scale):
-                                div.append(("grad_value", "%s:second-backward:%s" % (op, ac), "%s%s on %s (%s): after a second backward(g) operand %d holds %s, twice the first result is %s" % (
+                                div.append(("second_backward", "%s:second-backward:%s" % (op, ac), "%s%s on %s (%s): after a second backward(g) operand %d holds %s, twice the first result is %s" % (
                                     op, case["a"], case["shapes"], dn, k, g2.data.tolist(), (2 * first[k]).tolist())))
+                        # operands that do NOT require grad but still hold a gradient from earlier (a parameter frozen after it
+                        # was trained) are outside the graph being differentiated: the sweep leaves that gradient alone (C11)
+                        if not all(rg) and not alias:
+                            T4 = self.operands(case, dtype, rg)
+                            held = {}
+                            try:
+                                with repo.quiet(), np.errstate(all="ignore"):
+                                    for k4, t4 in enumerate(T4):
+                                        if not rg[k4] and t4.data.dtype.kind == "f" and self.bases.get(k4) is None:
+                                            t4.requires_grad = True
+                                            (t4 * 1.0).sum().backward()
+                                            t4.requires_grad = False
+                                            held[k4] = snap(t4.grad)
+                                    out4 = self.caller(sg, op, case["a"], T4, 0)
+                                    out4.backward(sg.Tensor(qarr(ent["g"], case["oshape"], gdt)))
+                                for k4, before4 in held.items():
+                                    g4 = T4[k4].grad
+                                    if g4 is None or snap(g4) != before4:
+                                        div.append(("outside_grad", "%s:frozen-operand-grad-changed:%s" % (op, ac), "%s%s on %s: operand %d does not require grad but held a gradient; after backward it changed from %s to %s" % (
+                                            op, case["a"], case["shapes"], k4, np.frombuffer(before4[2], dtype=before4[1]).tolist(), None if g4 is None else g4.data.tolist())))
+                            except Exception:  # noqa: BLE001 - flipping requires_grad on this operand is not possible: nothing to check
+                                pass
                         # the vector-Jacobian product is linear in g: tiny and large upstream gradients scale the result
                         # exactly (powers of two), nothing is dropped as "negligible" or clipped
                         for c in (2.0 ** -40, 2.0 ** 20):
